@@ -81,7 +81,7 @@ impl OutPat {
 /// What follows the coding on the connection: the next response, possibly preceded by a stray CRLF
 /// (which a robust server-side framing may produce), something that looks like another last-chunk,
 /// or a lone CRLF. None of it may be touched.
-pub const TAILS: [&[u8]; 4] = [NEXT, b"\r\nHTTP/1.1 204 X\r\n\r\n", b"0\r\n\r\nHTTP/1.1 200 OK\r\n\r\n", b"\r\n"];
+pub const TAILS: [&[u8]; 5] = [NEXT, b"\r\nHTTP/1.1 204 X\r\n\r\n", b"0\r\n\r\nHTTP/1.1 200 OK\r\n\r\n", b"\r\n", b""];
 
 pub fn run_coding(coded: &Coded, cuts: &[usize], pat: OutPat, stop: bool, rec: &mut Rec) -> bool {
     run_coding_toggle(coded, cuts, pat, stop, 0, rec)
@@ -91,7 +91,7 @@ pub fn run_coding(coded: &Coded, cuts: &[usize], pat: OutPat, stop: bool, rec: &
 /// judged with the setting in force when it was made).
 pub fn run_coding_toggle(coded: &Coded, cuts: &[usize], pat: OutPat, stop: bool, toggle_every: usize, rec: &mut Rec) -> bool {
     let mut stop = stop;
-    let tail = TAILS[(coded.bytes.len() + cuts.len() + cuts.first().copied().unwrap_or(0)) % 4];
+    let tail = TAILS[(coded.bytes.len() + cuts.len() + cuts.first().copied().unwrap_or(0)) % 5];
     let mut stream = coded.bytes.clone();
     stream.extend_from_slice(tail);
     let clen = coded.bytes.len();
@@ -232,7 +232,7 @@ pub fn run_coding_toggle(coded: &Coded, cuts: &[usize], pat: OutPat, stop: bool,
             }
         }
     }
-    rec.cov(&format!("tail/{}", if tail.starts_with(b"\r\n") { "starts-with-CRLF" } else if tail.starts_with(b"0") { "looks-like-last-chunk" } else { "next-response" }));
+    rec.cov(&format!("tail/{}", if tail.is_empty() { "nothing-follows" } else if tail.starts_with(b"\r\n") { "starts-with-CRLF" } else if tail.starts_with(b"0") { "looks-like-last-chunk" } else { "next-response" }));
     true
 }
 
@@ -517,6 +517,7 @@ impl Property for P {
         v.push(("boundary-stop/on".into(), 1000));
         v.push(("cut-after/data/out=0-after-payload".into(), 100));
         v.push(("tail/starts-with-CRLF".into(), 1000));
+        v.push(("tail/nothing-follows".into(), 1000));
         v.push(("tail/looks-like-last-chunk".into(), 1000));
         v.push(("boundary-stop/off".into(), 1000));
         v
